@@ -173,9 +173,32 @@ class BuildError(Exception):
     pass
 
 
-def build(verbose=False):
-    """Regenerate gen/*.v from /repo, make the Coq project, extract, build the driver.
-    Returns dict(gen_error=str|None).  Raises BuildError if the framework itself is broken."""
+def project_files():
+    out = []
+    for line in open(os.path.join(COQ, "_CoqProject")):
+        line = line.strip()
+        if line.endswith(".v"):
+            out.append(line)
+    return out
+
+
+def proof_targets(pid):
+    """the .vo files Props/<pid>.v imports directly (make follows their own dependencies)"""
+    src = open(os.path.join(COQ, "Props", pid + ".v")).read()
+    names = set()
+    for m in re.finditer(r"From\s+V\s+Require(?:\s+Import|\s+Export)?\s+([^.]+)\.", src):
+        names.update(m.group(1).split())
+    by_base = {os.path.basename(f)[:-2]: f for f in project_files()}
+    return sorted(by_base[n][:-2] + ".vo" for n in names if n in by_base)
+
+
+def build(pid=None, verbose=False):
+    """Regenerate gen/*.v from /repo; make the MODEL part of the Coq project (Base, gen, Model), extract, build the driver; then make
+    the proof files property <pid> depends on (all of them when pid is None).
+    A broken model build / extraction raises BuildError (the framework itself is broken: no property is shown).  A proof file that
+    no longer compiles -- e.g. a finite-table obligation over regenerated facts -- is NOT a framework failure: it is recorded
+    (info['proof_build_error']) and surfaces as a broken proof obligation of exactly the properties whose theorems depend on it,
+    while their behavioural streams still run and search for a concrete failing input."""
     t0 = time.time()
     info = {"gen_error": None}
     lock = open(os.path.join(VERIF, ".build.lock"), "w")
@@ -190,9 +213,16 @@ def build(verbose=False):
             rc, out = run_cmd(["coq_makefile", "-f", "_CoqProject", "-o", "Makefile"], cwd=COQ)
             if rc != 0:
                 raise BuildError("coq_makefile failed:\n" + out)
-        rc, out = run_cmd(["timeout", "1500", "make", "-j16"], cwd=COQ, timeout=1600)
+        model_vos = [f[:-2] + ".vo" for f in project_files() if f.split("/")[0] in ("Base", "gen", "Model")]
+        rc, out = run_cmd(["timeout", "1500", "make", "-j16"] + model_vos, cwd=COQ, timeout=1600)
         if rc != 0:
-            raise BuildError("Coq build failed:\n" + out[-4000:])
+            raise BuildError("Coq build of the model failed:\n" + out[-4000:])
+        targets = proof_targets(pid) if pid else [f[:-2] + ".vo" for f in project_files()]
+        rc, out = run_cmd(["timeout", "1500", "make", "-j16", "-k"] + targets, cwd=COQ, timeout=1600)
+        if rc != 0:
+            info["proof_build_error"] = out[-4000:]
+            if not pid:
+                raise BuildError("Coq build failed:\n" + out[-4000:])
         # 3. extraction + driver, when the model changed
         stamp = os.path.join(OCAML, ".stamp")
         h = hashlib.sha256()
@@ -387,8 +417,13 @@ def finish(ctx, props_res, build_info, level="proof", extra_trusted=()):
     obligations = len(props_res["names"]) if props_res else 0
     discharged = obligations if (props_res and props_res["ok"]) else 0
     if props_res and not props_res["ok"]:
-        ctx.add("proof", "proof-obligation", "Props/%s.v no longer checks" % pid,
-                {"theorem_file": "coq/Props/%s.v" % pid, "coqc_log": props_res["log"][-3000:]})
+        mk = (build_info or {}).get("proof_build_error")
+        culprit = ""
+        if mk:
+            m = re.search(r'File "\./([^"]+)", line (\d+)', mk)
+            culprit = " (%s, line %s, no longer compiles)" % (m.group(1), m.group(2)) if m else ""
+        ctx.add("proof", "proof-obligation", "Props/%s.v no longer checks%s" % (pid, culprit),
+                {"theorem_file": "coq/Props/%s.v" % pid, "coqc_log": props_res["log"][-3000:], "make_log": (mk or "")[-3000:]})
     if build_info and build_info.get("gen_error"):
         ctx.add("proof", "gen-facts", "fact extraction from the working tree failed",
                 {"log": build_info["gen_error"]})
